@@ -1,4 +1,5 @@
 import CalicoVerif.Proofs.C12Bridge
+import CalicoVerif.Proofs.C12Nets
 import CalicoVerif.Proofs.C09
 import CalicoVerif.Props.C11
 /-!
@@ -32,6 +33,12 @@ Other theorems:
 * `checker_rules_ref`, `checker_profiles_ref`, `checker_tiers_ref` — the checker model's loops
   compute the reference decisions on protocol-only rules (hypotheses quantify over the rules of the
   lists only; satisfiable: example below).
+* `checker_tiers_nets_ref`, `checker_bpf_agree_nets_partial` — the checker model WITH literal CIDR
+  criteria (`matchSrcNet`/`matchDstNet`: source / not-source / destination / not-destination IPv4
+  CIDR lists, next to protocol / not-protocol) computes the reference verdict, and therefore agrees
+  with the BPF program's verdict (`C11.polprog_verdict_partial`) on that fragment.  The iptables
+  side with CIDRs is covered by the correspondence run (real renderer + chain evaluator) only, not
+  by a theorem — the composition with a10's chain theorem stays protocol-only (`_partial`).
 * `profile_pass_disagree`, `stale_pass_mark_disagree` — the full statement is FALSE: witnesses.
 -/
 namespace CalicoVerif.C12
@@ -254,6 +261,60 @@ theorem verdict_workload (env : Env) (tiers : List Tier) (profiles : List Policy
       bpfVerdict env (wlRules tiers profiles np) p := by
   simp only [wlRules, verdict, bpfVerdict, evalTiers, Bool.false_eq_true, if_false, if_true]
   cases toOrFromHost p <;> rfl
+
+/-! ### The checker with literal CIDR criteria -/
+
+/-- `checkTiers` with `matchSrcNet` / `matchDstNet` computes the reference workload verdict, for rules
+with protocol / not-protocol and IPv4 source / not-source / destination / not-destination CIDR lists
+(`TiersNetsL4`/`PoliciesNetsL4`: that shape, IPv4 CIDRs, an API action), an IPv4 program and the
+flow's addresses sitting in the state in network byte order (`FlowAddrs`). -/
+theorem checker_tiers_nets_ref (env : Env) (hv4 : env.c.v6 = false) (p : Pkt) (n : Nat) (hn : 1 ≤ n)
+    (hp : p.proto.toNat = n) (src dst : Nat) (hf : FlowAddrs p src dst) (r : Rules)
+    (ht : TiersNetsL4 r.tiers) (hpr : PoliciesNetsL4 r.profiles) :
+    checkTiersN (n : Int) src dst r.profiles r.tiers = some (bpfVerdict env r p == .allow) := by
+  have := checkTiersN_ref env hv4 p n hn hp src dst hf r.profiles hpr r.tiers ht
+  rw [this]
+  simp only [bpfVerdict, workloadVerdict, Bool.false_eq_true, if_false]
+  cases evalTiers env p .dest r.tiers <;> simp <;> (cases evalProfiles true env p r.profiles <;> rfl)
+
+/-- The checker's rule match with CIDRs is the reference match (rules dropped for the IP version do
+not match). -/
+theorem checker_match_nets_ref (env : Env) (hv4 : env.c.v6 = false) (p : Pkt) (n : Nat) (hn : 1 ≤ n)
+    (hp : p.proto.toNat = n) (src dst : Nat) (hf : FlowAddrs p src dst) (r : Rule) (h : NetsL4 r) :
+    matchRuleN r (n : Int) src dst =
+      (match filterRule env.c.v6 r with
+       | none => false
+       | some fr => ruleMatch env p .dest fr) :=
+  matchRuleN_ref env hv4 p n hn hp src dst hf r h
+
+/-- **app-policy and BPF agree with literal CIDRs**: for a workload interface without host policy,
+rules of the protocol + IPv4-CIDR fragment and any flow, the BPF program's instructions, interpreted,
+end as verdict `v` demands, and the checker answers OK iff `v` is allow. -/
+theorem checker_bpf_agree_nets_partial (tiers : List Tier) (profiles : List Policy) (np : Nat) (env : Env)
+    (st : List Byte) (src dst : Nat)
+    (hct : TiersNetsL4 tiers) (hcp : PoliciesNetsL4 profiles) (hv4 : env.c.v6 = false)
+    (hn : 1 ≤ (pktOfD st).proto.toNat) (hf : FlowAddrs (pktOfD st) src dst)
+    (hok : ProgOK env st (wlRules tiers profiles np))
+    (hs : env.stateOK = true) (hnosplit : NoSplit env.c (flat (compile env.c (wlRules tiers profiles np))))
+    (hshort : (flat (compile env.c (wlRules tiers profiles np))).length < env.c.trampolineStride)
+    (prog : List Insn) (hi : instructions env.c (wlRules tiers profiles np) = some (some [prog])) :
+    ∃ v : Verdict,
+      (∃ o, (execL env prog (Mach.init st)).obs = some o ∧ (expectedObs env false v).agrees o = true) ∧
+      checkTiersN ((pktOfD st).proto.toNat : Int) src dst profiles tiers = some (v == .allow) := by
+  refine ⟨bpfVerdict env (wlRules tiers profiles np) (pktOfD st), ?_, ?_⟩
+  · have := polprog_verdict_partial env st _ hok hs hnosplit hshort prog hi
+    rw [verdict_workload] at this
+    exact this
+  · exact checker_tiers_nets_ref env hv4 (pktOfD st) _ hn rfl src dst hf (wlRules tiers profiles np) hct hcp
+
+-- non-vacuity: "allow tcp to !10.0.0.0/8 from 10.1.0.0/16" is in the fragment
+def exNets : Rule :=
+  { action := "allow", protocol := some (Proto.name "tcp"), srcNet := [{ v6 := false, addr := 0x0a010000, pfx := 16 }],
+    notDstNet := [{ v6 := false, addr := 0x0a000000, pfx := 8 }] }
+example : NetsL4 exNets := ⟨rfl, by intro n hn; simp [exNets] at hn; rcases hn with rfl | rfl <;> rfl⟩
+-- ... and the checker model decides it per side: source inside 10.1/16, destination inside / outside 10/8
+example : matchRuleN exNets 6 0x0a010203 0x0a000002 = false ∧ matchRuleN exNets 6 0x0a010203 0xc0a80001 = true ∧
+    matchRuleN exNets 6 0xc0a80001 0xc0a80001 = false := by decide
 
 /-- **All dataplanes agree** (common fragment, see the header). -/
 theorem dataplanes_agree_partial
